@@ -247,6 +247,13 @@ def gen_history(
     res = [spec.effective_group_config(config, g.get("overrides", {})) for g in groups]
     while len(events) < n_events:
         if events and rng.random() < hparam_rate:
+            if len(groups) > 1 and rng.random() < 0.4:
+                # a learning-rate scheduler writes the same (or the same scaled) value into every group
+                val = rng.choice([0.0, f32r(rng, 1e-3, 0.5), f32r(rng, 1e-3, 0.5)])
+                same = rng.random() < 0.6
+                for gi in range(len(groups)):
+                    events.append({"op": "set_hparam", "group": gi, "key": "lr", "value": val if same else spec.f32(val * (gi + 1) / 2)})
+                continue
             gi = rng.randrange(len(groups))
             key = rng.choice(["lr", "lr", "weight_decay", "momentum"])
             if key == "lr":
